@@ -114,7 +114,7 @@ func (its *document) GetByPath(path string) (Document, errors.OrdaError) {
 	}
 	var target jsonType
 	var err errors.OrdaError
-	its.DoRead(its.TxCtx, func() { target, err = its.snapshot().getTargetByPaths(paths) })
+	its.DoRead(its.TxCtx, func() { target, err = its.liveNode().getTargetByPaths(paths) })
 	if err != nil {
 		return nil, err
 	}
@@ -206,12 +206,36 @@ func (its *document) snapshot() jsonType {
 	return its.GetSnapshot().(jsonType)
 }
 
+// live returns the node this Document stands for in the current tree of the datatype. A rolled-back transaction
+// rebuilds the tree (the snapshot of the last rollback point plus a replay of the operations since), so a child
+// Document obtained earlier holds a node of a tree that is no longer the datatype's; the node that took its place
+// has the same creation time. gone reports a node the current tree does not know (any more): a deleted element,
+// or a node that only the abandoned transaction had created; such a Document keeps showing the node it holds.
+// The tree is read here: to be called with the datatype's lock held (DoRead).
+func (its *document) live() (node jsonType, gone bool) {
+	node = its.snapshot()
+	root, ok := its.Datatype.(*document)
+	if !ok || root == its || root.snapshot() == node {
+		return node, false
+	}
+	if found, ok := root.snapshot().findJSONType(node.getCreateTime()); ok && found.getType() == node.getType() {
+		return found, false
+	}
+	return node, true
+}
+
+// liveNode is live for callers that read the node whether or not the tree still knows it.
+func (its *document) liveNode() jsonType {
+	node, _ := its.live()
+	return node
+}
+
 func (its *document) ResetSnapshot() {
 	its.Snapshot = newJSONObject(its.BaseDatatype, nil, model.OldestTimestamp())
 }
 
 func (its *document) ToJSON() (ret interface{}) {
-	its.DoRead(its.TxCtx, func() { ret = its.snapshot().ToJSON() })
+	its.DoRead(its.TxCtx, func() { ret = its.liveNode().ToJSON() })
 	return
 }
 
@@ -311,7 +335,7 @@ func (its *document) GetFromObject(key string) (Document, errors.OrdaError) {
 	}
 	var found jsonType
 	its.DoRead(its.TxCtx, func() {
-		obj := its.snapshot().(*jsonObject)
+		obj := its.liveNode().(*jsonObject)
 		if child := obj.getFromMap(key); child != nil && !child.(jsonType).isGarbage() {
 			found = child.(jsonType)
 		}
@@ -338,7 +362,7 @@ func (its *document) GetManyFromArray(pos int, numOfNodes int) ([]Document, erro
 	var children []jsonType
 	var err errors.OrdaError
 	its.DoRead(its.TxCtx, func() {
-		arr := its.snapshot().(*jsonArray)
+		arr := its.liveNode().(*jsonArray)
 		if err = arr.validateGetRange(pos, numOfNodes); err == nil {
 			children = arr.getManyJSONTypes(pos, numOfNodes)
 		}
@@ -355,14 +379,15 @@ func (its *document) InsertToArray(pos int, values ...interface{}) (Document, er
 	if err := its.assertLocalOp("InsertToArray", TypeJSONArray, false); err != nil {
 		return its, err
 	}
-	arr := its.snapshot().(*jsonArray)
-	if err := arr.validateInsertPosition(pos); err != nil {
+	var err errors.OrdaError
+	its.DoRead(its.TxCtx, func() { err = its.liveNode().(*jsonArray).validateInsertPosition(pos) })
+	if err != nil {
 		return its, err
 	}
 	if hasNullValue(values...) {
 		return its, errors.DatatypeIllegalParameters.New(its.L(), "null value is not allowed")
 	}
-	values, err := its.toJSONValues(values...)
+	values, err = its.toJSONValues(values...)
 	if err != nil {
 		return its, err
 	}
@@ -390,8 +415,9 @@ func (its *document) DeleteManyInArray(pos int, numOfNodes int) ([]Document, err
 	if err := its.assertLocalOp("DeleteManyInArray", TypeJSONArray, false); err != nil {
 		return nil, err
 	}
-	arr := its.snapshot().(*jsonArray)
-	if err := arr.validateGetRange(pos, numOfNodes); err != nil {
+	var err errors.OrdaError
+	its.DoRead(its.TxCtx, func() { err = its.liveNode().(*jsonArray).validateGetRange(pos, numOfNodes) })
+	if err != nil {
 		return nil, err
 	}
 	op := operations.NewDocDeleteInArrayOperation(its.snapshot().getCreateTime(), pos, numOfNodes)
@@ -407,14 +433,15 @@ func (its *document) UpdateManyInArray(pos int, values ...interface{}) ([]Docume
 	if err := its.assertLocalOp("UpdateManyInArray", TypeJSONArray, false); err != nil {
 		return nil, err
 	}
-	arr := its.snapshot().(*jsonArray)
-	if err := arr.validateGetRange(pos, len(values)); err != nil {
+	var err errors.OrdaError
+	its.DoRead(its.TxCtx, func() { err = its.liveNode().(*jsonArray).validateGetRange(pos, len(values)) })
+	if err != nil {
 		return nil, err
 	}
 	if hasNullValue(values...) {
 		return nil, errors.DatatypeIllegalParameters.New(its.L(), "null value is not allowed")
 	}
-	values, err := its.toJSONValues(values...)
+	values, err = its.toJSONValues(values...)
 	if err != nil {
 		return nil, err
 	}
@@ -431,7 +458,10 @@ func (its *document) GetTypeOfJSON() TypeOfJSON {
 }
 
 func (its *document) IsGarbage() (ret bool) {
-	its.DoRead(its.TxCtx, func() { ret = its.snapshot().isGarbage() })
+	its.DoRead(its.TxCtx, func() {
+		node, gone := its.live()
+		ret = gone || node.isGarbage()
+	})
 	return
 }
 
@@ -454,10 +484,10 @@ func (its *document) Equal(o Document) bool {
 	if its.datatype != other.datatype {
 		return false
 	}
-	if its.snapshot() != other.snapshot() {
-		return false
-	}
-	return true
+	// the same node, or the nodes of one member before and after the tree was rebuilt by a rollback
+	return its.snapshot() == other.snapshot() ||
+		(its.snapshot().getType() == other.snapshot().getType() &&
+			its.snapshot().getCreateTime().Hash() == other.snapshot().getCreateTime().Hash())
 }
 
 func (its *document) toDocuments(children []jsonType) (ret []Document) {
@@ -510,7 +540,7 @@ func (its *document) assertLocalOp(opName string, ofJSON TypeOfJSON, workOnGarba
 	if its.GetTypeOfJSON() != ofJSON {
 		return errors.DatatypeInvalidParent.New(its.L(), opName, " is not allowed to ")
 	}
-	if !workOnGarbage && its.snapshot().isGarbage() {
+	if !workOnGarbage && its.IsGarbage() {
 		return errors.DatatypeNoOp.New(its.L(), "already deleted from the root Document")
 	}
 	return nil
